@@ -143,6 +143,20 @@ func checkC16(c *Ctx) {
 	// … also not by taking the private copy inside the goroutine (C09 R09.1), and the TTL cell of the caller's context — shared by
 	// every goroutine using that context — is never written by Failover: the stale refresh derives its own cell (C06 R06.2)
 	c.borrowKinds("C09", func() { c.c09Retention() }, "R16.8", "Failover.Get:key-read-after-return", []string{"R09.1"}, "read-in-goroutine", "used-in-goroutine")
+	// … nor kept by a backend: every Write stores a private copy of the key (C09 R09.2) — a stored entry whose K is the caller's slice
+	// is read by Walk / Dump / eviction while the caller, who is free to reuse the buffer, writes it
+	c.borrowKinds("C09", func() {
+		for _, b := range backends {
+			c.c09WriteCopies(b)
+		}
+	}, "R16.8", "backends.Write:key-copied", []string{"R09.2"}, "stored-key-not-copy")
+	// shard maps are read under the shard lock and written under its exclusive mode (C08 R08.1): a delete under RLock runs beside
+	// the readers holding the same read lock
+	c.borrowKinds("C08", func() {
+		for _, b := range backends {
+			c.c08Backend(b)
+		}
+	}, "R16.1", "shard maps:lock mode", []string{"R08.1"}, "write-unlocked", "read-unlocked")
 	c.borrowKinds("C06", func() {
 		for _, sib := range siblings {
 			if fo := c.failover(sib); fo.Err == nil {
